@@ -452,6 +452,21 @@ fn apply(st: &mut State, step: &Step, counts: &mut Vec<&'static str>) -> Result<
                 let r = CSliceRef::from(&bad[..]);
                 vcheck!(<&str>::try_from(r).is_err(), "layout.slice", "utf8", "invalid UTF-8 was accepted as &str");
             }
+            {
+                // what a C caller naturally builds for "no elements": {NULL, 0}
+                counts.push("probe.c_made_null_empty_slice");
+                let r: CSliceRef<u32> = unsafe { cview::view(SliceView::<u32> { data: std::ptr::null_mut(), len: 0 }) };
+                vcheck!(r.len() == 0 && r.is_empty(), "layout.slice", "C-made {NULL, 0}", "C-made empty slice reports len {}", r.len());
+                let n = r.as_slice().len() + r.iter().count();
+                let back: &[u32] = r.into();
+                vcheck!(n == 0 && back.is_empty(), "layout.slice", "C-made {NULL, 0}", "C-made empty slice reads back {} element(s)", n + back.len());
+                let r: CSliceRef<u8> = unsafe { cview::view(SliceView::<u8> { data: std::ptr::null_mut(), len: 0 }) };
+                vcheck!(<&str>::try_from(r) == Ok(""), "layout.slice", "C-made {NULL, 0}", "C-made empty byte slice is not the empty string");
+                let m: CSliceMut<u64> = unsafe { cview::view(SliceView::<u64> { data: std::ptr::null_mut(), len: 0 }) };
+                let k = m.as_slice().len() + m.iter().count();
+                let back: &mut [u64] = m.into();
+                vcheck!(k == 0 && back.is_empty(), "layout.slice", "C-made {NULL, 0}", "C-made empty mutable slice reads back {} element(s)", k + back.len());
+            }
             Ok("Tags".into())
         }
         _ => Ok(format!("unknown-op {}", step.op)),
